@@ -144,9 +144,24 @@ Cases ==
     \cup {[kind |-> "base", s |-> name, id |-> "", nth |-> 0, fl |-> "", ly |-> ly] : name \in DOMAIN Corpus, ly \in LoaderLayouts}
     \cup UNION {{[kind |-> "loader", s |-> name, id |-> "", nth |-> 0, fl |-> t, ly |-> ly] : t \in Loaded(name), ly \in LoaderLayouts} : name \in DOMAIN Corpus}
     \cup {[kind |-> "unresolved", s |-> name, id |-> "", nth |-> 0, fl |-> "", ly |-> ly] : name \in DOMAIN Unresolved, ly \in LoaderLayouts}
-TpOf(c) == IF c.kind = "unresolved" THEN Unresolved[c.s].tp ELSE Corpus[c.s]
+    \* a loader that served a template begins to fail for it (the engine reloads what has changed: auto-reload, time stamps):
+    \* the render after that fails with the loader's error wherever the template is needed, and succeeds where it is not
+    \cup UNION {{[kind |-> "latefault", s |-> name, id |-> "", nth |-> 0, fl |-> "", ly |-> ly, late |-> t] : t \in DOMAIN Corpus[name], ly \in {"only", "front", "back"}}
+                : name \in DOMAIN Corpus}
+\* a template in a directory refers to its neighbour by a relative name; the neighbour exists and its loader fails (a template
+\* of the same name at the root must not be taken instead, nor the failure be reported as "not found")
+DotB == <<46, 47, 98>>        \* ./b
+RelRoutes == [ from    |-> <<From(LS(DotB), <<"mm">>, <<"mm">>), PrintS(Call("mm", <<LI(1)>>))>>,
+               import  |-> <<Import(LS(DotB), "L"), PrintS(MCall("L", "mm", <<LI(1)>>))>>,
+               include |-> <<T(<<91>>), Inc(LS(DotB)), T(<<93>>)>>,
+               extends |-> <<Extends(LS(DotB)), Block("bb", <<T(sX)>>)>> ]
+RelTp(r) == ("pm" :> RelRoutes[r]) @@ ("pb" :> Lib \o <<T(<<112>>), Block("bb", <<T(<<100>>)>>)>>)
+            @@ ("b" :> <<Macro("mm", <<Param("a")>>, <<T(<<82, 79, 79, 84>>)>>), T(<<114>>), Block("bb", <<T(<<101>>)>>)>>)
+RelCases == {[kind |-> "relfault", s |-> r, id |-> "", nth |-> 0, fl |-> fl, ly |-> ly] : r \in DOMAIN RelRoutes, fl \in {"", "pb"}, ly \in LoaderLayouts}
+TpOf(c) == IF c.kind = "unresolved" THEN Unresolved[c.s].tp ELSE IF c.kind = "relfault" THEN RelTp(c.s) ELSE Corpus[c.s]
+EntryOf(c) == IF c.kind = "relfault" THEN "pm" ELSE "main"
 World(c) == MkWF(TpOf(c), {}, {}, [id |-> c.id, nth |-> c.nth], c.fl)
-Ref(c) == Render(World(c), "main", Ctx)
+Ref(c) == Render(World(c), EntryOf(c), Ctx)
 
 \* ---- the property on the model --------------------------------------------------------
 Surfaces(c) ==
@@ -156,22 +171,27 @@ Surfaces(c) ==
     /\ (c.kind = "loader" => ~r.ok /\ r.err = "fault")
     /\ (c.kind = "unresolved" => ~r.ok /\ r.err = Unresolved[c.s].err)
     /\ (c.kind = "base" => r.ok)
+    /\ (c.kind = "relfault" => IF c.fl = "" THEN r.ok ELSE ~r.ok /\ r.err = "fault")
+    /\ (c.kind = "latefault" => r.ok /\ LET r2 == Render(MkWF(TpOf(c), {}, {}, NoFault, c.late), "main", Ctx) IN (r2.ok \/ r2.err = "fault"))
 
 Variants == {[debug |-> d, writer |-> w] : d \in BOOLEAN, w \in {"", "buffer", "plain"}}
 CaseOf(c) ==
     LET ref == Ref(c) IN
     [prop |-> "C17", key |-> ToJson(c),
      tags |-> {"kind:" \o c.kind, "s:" \o c.s} \cup (IF c.kind = "fault" THEN {"spy:" \o c.id} ELSE {}) \cup {"loaders:" \o c.ly},
-     entry |-> "main", ctx |-> Ctx,
+     entry |-> EntryOf(c), ctx |-> Ctx,
      cfg |-> [faultid |-> c.id, faultnth |-> c.nth, faultload |-> c.fl, loader |-> TRUE, frontloader |-> c.ly = "front",
               backloader |-> c.ly = "back", chainloader |-> c.ly = "chain", spynames |-> <<"range", "length">>,
               spyfilternames |-> <<"spaceless">>],
      runs |-> {[label |-> (IF v.debug THEN "debug" ELSE "nodebug") \o "/" \o (IF v.writer = "" THEN "render" ELSE v.writer),
-                tp |-> Sources(TpOf(c), LMin), xcalls |-> [id \in {} |-> 0], debug |-> v.debug, writer |-> v.writer] : v \in Variants},
+                tp |-> Sources(TpOf(c), LMin), xcalls |-> [id \in {} |-> 0], debug |-> v.debug, writer |-> v.writer]
+                @@ (IF c.kind = "latefault"
+                    THEN LET r2 == Render(MkWF(TpOf(c), {}, {}, NoFault, c.late), "main", Ctx) IN [late |-> [name |-> c.late, ok |-> r2.ok, out |-> r2.out, err |-> r2.err]]
+                    ELSE EmptyFn) : v \in Variants},
      expect |-> [ok |-> ref.ok, out |-> ref.out, err |-> ref.err,
                  calls |-> [id \in AllIds |-> CountOf(ref.calls, id)]]]
 
-Init == cs \in Cases
+Init == cs \in Cases \cup RelCases
 Next == UNCHANGED cs
 Spec == Init /\ [][Next]_cs
 Emit == PrintT(ToJson(CaseOf(cs)))
